@@ -17,7 +17,12 @@ pub const CPW: [&str; 7] = [
 ];
 
 /// Hand-built roots rich in the hazards the properties name.
-pub const HAZARD: [&str; 62] = [
+pub const HAZARD: [&str; 66] = [
+    // eight under-promotions to one kind: ten knights, bishops or rooks a side (legal; nine is the limit for queens only)
+    "nnnnnnnn/nn2k3/8/8/8/8/NN2K3/NNNNNNNN w - - 0 1",
+    "bbbbbbbb/bb2k3/8/8/8/8/BB2K3/BBBBBBBB b - - 0 1",
+    "rrrrrrrr/rr2k3/8/8/8/8/RR2K3/RRRRRRRR w - - 0 1",
+    "qqqqqqqq/q3k3/8/8/8/8/Q3K3/QQQQQQQQ b - - 0 1",
     // en passant x pins / discovered attacks
     "7b/8/8/4Pp2/3K4/8/8/k7 w - f6 0 1",
     "8/8/8/8/k2Pp2Q/8/8/3K4 b - d3 0 1",
